@@ -7,7 +7,8 @@
 From NiflyVerif Require Import Res ContainerModel ContainerBase ContainerHdr ContainerWalk ContainerStrings ContainerUnknown ContainerExamples.
 Local Open Scope N_scope.
 
-(* For every file the independent reader accepts (so >= 20.2.0.5) with a well-formed header of a
+(* For every file the independent reader accepts (so >= 20.2.0.5) with a well-formed header (its
+   1-byte-sized creator/export strings of any length: [clip_tables] is the header as Put leaves it) of a
    supported version, whose blocks of known types are consumed exactly by their codecs
    ([blocks_ok]) and which has at least one block of a type without factory: Load succeeds, and
    Save with ANY option set writes a file the independent reader accepts again, with the same
@@ -21,7 +22,7 @@ Theorem C03_unknown_payload :
          (prune sort : model blk -> model blk) (s : list N) (t : tables) (pays : list (list N))
          (bs0 : list (cblock blk)) (o : save_opts),
   walkb s = Some (t, pays) ->
-  wf_tables t ->
+  wf_tables (clip_tables t) ->
   supported (h_ver t) = true ->
   vlen pays = h_nblocks t ->
   blocks_ok blk get_blk known t 0 pays bs0 ->
@@ -31,9 +32,9 @@ Theorem C03_unknown_payload :
     pre_save blk finalize_blk bounds_blk prune sort o m = Ok m' /\
     (Forall str4_ok (h_strings (m_hdr blk m')) ->
      u32 (vlen (h_strings (m_hdr blk m'))) ->
-     Forall (fun b : cblock blk => u32 (vlen (payload_of blk put_blk (m_hdr blk m') b))) (m_blocks blk m') ->
+     Forall (fun b : cblock blk => u32 (vlen (payload_of blk put_blk (clip_tables (m_hdr blk m')) b))) (m_blocks blk m') ->
      exists (bytes : list N) (pays' : list (list N)) (t' : tables),
-       save blk put_blk finalize_blk bounds_blk prune sort o m = Ok (bytes, m') /\
+       save blk put_blk finalize_blk bounds_blk prune sort o m = Ok (bytes, clip_model blk m') /\
        walkb bytes = Some (t', pays') /\
        length pays' = length pays /\
        h_nblocks t' = h_nblocks t /\
@@ -89,7 +90,7 @@ Theorem C03_load_unknown :
          (known : list N -> bool) (prepare_blk : model blk -> srefs * blk -> srefs * blk)
          (s : list N) (t : tables) (pays : list (list N)) (bs0 : list (cblock blk)),
   walkb s = Some (t, pays) ->
-  wf_tables t ->
+  wf_tables (clip_tables t) ->
   supported (h_ver t) = true ->
   vlen pays = h_nblocks t ->
   blocks_ok blk get_blk known t 0 pays bs0 ->
@@ -122,8 +123,8 @@ Print Assumptions C03_load_err3.
 (* ---- the hypotheses are satisfiable: a two-block file (one known, one unknown type) ---- *)
 Example C03_ex_walk : walkb ex_file = Some (ex_tables [110; 105; 102], ex_pays).
 Proof. exact ex_walk. Qed.
-Example C03_ex_wf : wf_tables (ex_tables [110; 105; 102]).
-Proof. exact ex_wf. Qed.
+Example C03_ex_wf : wf_tables (clip_tables (ex_tables [110; 105; 102])).
+Proof. exact (ex_wf_any [110; 105; 102] ltac:(repeat constructor; discriminate)). Qed.
 Example C03_ex_blocks_ok : blocks_ok (list N) ex_get ex_known (ex_tables [110; 105; 102]) 0 ex_pays ex_blocks.
 Proof. exact ex_blocks_ok. Qed.
 Example C03_ex_roundtrip :
